@@ -1,4 +1,6 @@
 INIT Init
 NEXT Next
 CONSTANTS
-  N = 5
+  N = 4
+  Full = TRUE
+  Fifth = TRUE
